@@ -516,6 +516,12 @@ impl<'l, Data> EventLoop<'l, Data> {
             }
         }
 
+        // An error of one source must not cost the other sources the events collected for them in
+        // this batch (expired timers are already out of the wheel, one-shot and edge-triggered
+        // events are not reported again): go on with the remaining events and report the first
+        // error once the batch is done.
+        let mut first_error = None;
+
         for event in self.synthetic_events.drain(..).chain(events) {
             // Get the registration token associated with the event.
             let reg_token = event.token.inner.forget_sub_id();
@@ -541,10 +547,17 @@ impl<'l, Data> EventLoop<'l, Data> {
                     .inner
                     .pending_action
                     .replace(PostAction::Continue);
-                let mut ret = result?;
-                if let PostAction::Continue = ret {
-                    ret = pending_action;
-                }
+                let ret = match result {
+                    Ok(PostAction::Continue) => pending_action,
+                    Ok(ret) => ret,
+                    Err(e) => {
+                        // nothing to apply for this event
+                        if first_error.is_none() {
+                            first_error = Some(e);
+                        }
+                        PostAction::Continue
+                    }
+                };
 
                 match ret {
                     PostAction::Reregister => {
@@ -552,7 +565,7 @@ impl<'l, Data> EventLoop<'l, Data> {
                             source = reg_token.get_id(),
                             "Postaction reregister for source"
                         );
-                        disp.reregister(
+                        let res = disp.reregister(
                             &mut self.handle.inner.poll.borrow_mut(),
                             &mut self
                                 .handle
@@ -560,14 +573,19 @@ impl<'l, Data> EventLoop<'l, Data> {
                                 .sources_with_additional_lifecycle_events
                                 .borrow_mut(),
                             &mut TokenFactory::new(reg_token),
-                        )?;
+                        );
+                        if let Err(e) = res {
+                            if first_error.is_none() {
+                                first_error = Some(e);
+                            }
+                        }
                     }
                     PostAction::Disable => {
                         trace!(
                             source = reg_token.get_id(),
                             "Postaction unregister for source"
                         );
-                        disp.unregister(
+                        let res = disp.unregister(
                             &mut self.handle.inner.poll.borrow_mut(),
                             &mut self
                                 .handle
@@ -575,7 +593,12 @@ impl<'l, Data> EventLoop<'l, Data> {
                                 .sources_with_additional_lifecycle_events
                                 .borrow_mut(),
                             RegistrationToken::new(reg_token),
-                        )?;
+                        );
+                        if let Err(e) = res {
+                            if first_error.is_none() {
+                                first_error = Some(e);
+                            }
+                        }
                     }
                     PostAction::Remove => {
                         trace!(source = reg_token.get_id(), "Postaction remove for source");
@@ -624,7 +647,10 @@ impl<'l, Data> EventLoop<'l, Data> {
             }
         }
 
-        Ok(())
+        match first_error {
+            Some(e) => Err(e),
+            None => Ok(()),
+        }
     }
 
     fn dispatch_idles(&mut self, data: &mut Data) {
